@@ -114,7 +114,12 @@ func (c *Client) runRaw() {
 			}
 			c.w.recx(Ev{Sess: c.name, Kind: "c-raw-ws-open", S: q, N: st, P: []string{"WS", strconv.Itoa(i), clip(body, 200)}})
 		case "wt-open":
-			s, r := c.openWTRaw(op.Bytes)
+			hsBytes := op.Bytes
+			if op.UseSid {
+				// an upgrade candidate: the WebTransport handshake packet names the session
+				hsBytes = ref.AppendWTFrame(nil, ref.WTMsg{Data: []byte(`0{"sid":"` + c.sid + `"}`)})
+			}
+			s, r := c.openWTRaw(hsBytes)
 			st := int64(200)
 			if s == nil {
 				if r != nil {
